@@ -147,6 +147,17 @@ pub fn units() -> Vec<Unit> {
                 Item::Method("Token", "get_name_id"),
                 Item::Method("Token", "is_range"),
                 Item::Method("SourceMap", "lookup_token"),
+            ],
+            imports: vec!["RsUtils"],
+        },
+        // the table side of `SourceMap` (sources, contents, root, ignore list): a unit of its own so that a change there
+        // does not take the token / lookup ties of `RsTypes` with it
+        Unit {
+            module: "RsSourceMap",
+            file: "types.rs",
+            fns: vec![
+                Item::Alias("SourceView", "String"),
+                Item::Alias("DebugId", "u64"),
                 Item::Method("SourceMap", "get_file"),
                 Item::Method("SourceMap", "get_source"),
                 Item::Method("SourceMap", "get_source_contents"),
@@ -157,7 +168,7 @@ pub fn units() -> Vec<Unit> {
                 Item::Method("SourceMap", "prefix_source"),
                 Item::Method("SourceMap", "set_source_root"),
             ],
-            imports: vec!["RsUtils"],
+            imports: vec!["RsUtils", "RsTypes"],
         },
         Unit {
             module: "RsEncoder",
@@ -283,7 +294,7 @@ pub fn units() -> Vec<Unit> {
                 Item::Method("SourceMapBuilder", "strip_prefixes"),
                 Item::Method("SourceMapBuilder", "into_sourcemap"),
             ],
-            imports: vec!["RsUtils", "RsTypes"],
+            imports: vec!["RsUtils", "RsTypes", "RsSourceMap"],
         },
         Unit {
             module: "RsAdjust",
@@ -336,7 +347,7 @@ pub fn units() -> Vec<Unit> {
                 "Result<()>",
                 "Ok(())",
             )],
-            imports: vec!["RsUtils", "RsTypes", "RsBuilder"],
+            imports: vec!["RsUtils", "RsTypes", "RsBuilder", "RsSourceMap"],
         },
         Unit {
             module: "RsRewrite",
@@ -353,7 +364,7 @@ pub fn units() -> Vec<Unit> {
                     "",
                 ),
             ],
-            imports: vec!["RsUtils", "RsTypes", "RsBuilder"],
+            imports: vec!["RsUtils", "RsTypes", "RsBuilder", "RsSourceMap"],
         },
         Unit {
             module: "RsDetector",
